@@ -225,6 +225,7 @@ func c02Run(c *fw.C, caseID string) {
 		tpl.MomentumAcknowledged = m.Identifier()
 	}
 	nMomentums := 60 + r.Intn(90)
+	rq := rand.New(rand.NewSource(fw.SeedFor(c.Seed, "c02-reads/"+caseID)))
 	burstAt := 15 + r.Intn(30)
 	if c.Thorough() {
 		nMomentums = 120 + r.Intn(180)
@@ -369,6 +370,20 @@ func c02Run(c *fw.C, caseID string) {
 		if _, err := P.Produce(skip); err != nil {
 			c.Violation("producer-cannot-produce", map[string]interface{}{"height": P.Height() + 1, "err": err.Error(), "log": w.Log})
 			return
+		}
+		// the producer also serves read-only requests while it works (own PRNG): answering them must not change what
+		// it produces afterwards — if it did, the followers (which are not asked at that moment) would disagree
+		if rq.Intn(9) == 0 {
+			_ = c02QueriesSeeded(P, rq.Int63())
+			func() {
+				defer func() { _ = recover() }()
+				pr := P.Cons.FrontierPillarReader()
+				cur := pr.EpochTicker().ToTick(*P.Frontier().Timestamp)
+				_, _ = pr.EpochStats(cur)
+				_, _ = pr.GetPillarWeights()
+				_, _ = P.Cons.GetMomentumProducer(P.NextSlot(rq.Intn(70)))
+			}()
+			c.Count("read_only_request_rounds_served_by_the_producer", 1)
 		}
 		for _, d := range depths {
 			if T := trail[d]; P.Height() > d && T.Height() < P.Height()-d {
